@@ -152,8 +152,58 @@ let run_stage id op spec text =
     let is_err = (match out with Zpos _ :: _ -> (text_of false (List.filteri (fun i _ -> i < 4) out) = "ERR ") | _ -> false) in
     if is_err then text_of false out else "S " ^ text_of true out
 
+(* ---- command-line tool cases: spec is ';'-separated key=value, values are dotted scalars ----
+   keys: inline=0/1 input= output= bg= fill= ff= fs= sw= scol= scale=   (options; absent key = option not given)
+         file:<path>=T<dots> | N | E      stdin=T<dots> | N      nowrite=<path>
+         usize:<str>=<int>   f32:<str>=<n/d>
+         build: dir=0/1 outdir=<path> ext=<str> entry:<name>:<ext>:<isfile>=T<dots>|N|E *)
+let read_result_of v =
+  if v = "N" then ReadNotUtf8 else if v = "E" then ReadError
+  else if String.length v >= 1 && v.[0] = 'T' then ReadText (scalars '.' (String.sub v 1 (String.length v - 1)))
+  else failwith ("read_result " ^ v)
+let cli_of spec =
+  let files = ref [] and stdin = ref (ReadText []) and nowrite = ref [] and usz = ref [] and f32 = ref [] in
+  let opt = Hashtbl.create 16 in
+  let entries = ref [] and dir = ref true and outdir = ref [] and ext = ref [] in
+  List.iter (fun kv ->
+    if kv <> "" then
+      match String.index_opt kv '=' with
+      | None -> failwith ("k=v " ^ kv)
+      | Some i ->
+        let k = String.sub kv 0 i and v = String.sub kv (i+1) (String.length kv - i - 1) in
+        let pre p = String.length k > String.length p && String.sub k 0 (String.length p) = p in
+        let rest p = String.sub k (String.length p) (String.length k - String.length p) in
+        if pre "file:" then files := (scalars '.' (rest "file:"), read_result_of v) :: !files
+        else if k = "stdin" then stdin := read_result_of v
+        else if k = "nowrite" then nowrite := scalars '.' v :: !nowrite
+        else if pre "usize:" then usz := (scalars '.' (rest "usize:"), z_of_int (int_of_string v)) :: !usz
+        else if pre "f32:" then f32 := (scalars '.' (rest "f32:"), ratio v) :: !f32
+        else if k = "dir" then dir := (v = "1")
+        else if k = "outdir" then outdir := scalars '.' v
+        else if k = "ext" then ext := scalars '.' v
+        else if pre "entry:" then
+          (match split_on ':' (rest "entry:") with
+           | [nm; ex; isf] -> entries := { e_name = scalars '.' nm; e_ext = scalars '.' ex; e_is_file = (isf = "1"); e_content = read_result_of v } :: !entries
+           | _ -> failwith ("entry " ^ k))
+        else Hashtbl.replace opt k v)
+    (split_on ';' spec);
+  let o k = match Hashtbl.find_opt opt k with Some v -> Some (scalars '.' v) | None -> None in
+  let opts = { o_inline = (Hashtbl.find_opt opt "inline" = Some "1"); o_input = o "input"; o_output = o "output";
+               o_background = o "bg"; o_fill = o "fill"; o_font_family = o "ff"; o_font_size = o "fs"; o_stroke_width = o "sw";
+               o_stroke_color = o "scol"; o_scale = o "scale" } in
+  ({ cc_files = List.rev !files; cc_stdin = !stdin; cc_nowrite = !nowrite; cc_usize = !usz; cc_f32 = !f32; cc_opts = opts },
+   !dir, !outdir, !ext, List.rev !entries)
+let dots zs = String.concat "." (List.map (fun z -> string_of_int (int_of_z z)) zs)
+let show_outcome (((code, diag), out), ws) =
+  Printf.sprintf "EXIT %d DIAG %d OUT %s WRITES %s" (int_of_z code) (if diag then 1 else 0) (text_of true out)
+    (String.concat " ;; " (List.map (fun (p, c) -> dots p ^ " = " ^ text_of true c) ws))
+
 let run_line line =
   match split_on '\t' line with
+  | id :: "cli" :: spec :: _ ->
+    let (c, _, _, _, _) = cli_of spec in id ^ "\t" ^ show_outcome (op_cli c)
+  | id :: "build" :: spec :: _ ->
+    let (c, dir, outdir, ext, entries) = cli_of spec in id ^ "\t" ^ show_outcome (op_build c dir outdir ext entries)
   | id :: op :: spec :: rest when (String.length op >= 5 && (String.sub op 0 5 = "emit:" || String.sub op 0 5 = "endor")) ->
     let input = scalars ' ' (String.concat "\t" rest) in
     (try id ^ "\t" ^ run_stage id op spec (text_of false input) with Unrep s -> id ^ "\tUNREP " ^ s)
